@@ -418,3 +418,67 @@ Proof.
 Qed.
 
 End WithCC3.
+
+(* ------------------------------------------------------------------ the trace theorem *)
+From Utp Require Import Conn.VSock_PollAux Conn.VSock_Poll.
+
+Lemma poll_write_ok : forall t buf t' n w,
+  poll_write t buf = (t', WrOk n, w) ->
+  ring t' = ring t ++ firstn (Z.to_nat n) buf /\ 1 <= n <= Z.of_nat (length buf).
+Proof.
+  intros t buf t' n w H. unfold poll_write in H.
+  destruct (YIELD_EVERY <? _); [discriminate|].
+  destruct (t_vsock_closed t); [discriminate|].
+  destruct (writer_shutdown t); [discriminate|].
+  destruct (writer_dropped t); [discriminate|].
+  destruct (Z.eqb_spec (Z.min (Z.of_nat (length buf)) (Z.max (cap t - Z.of_nat (length (ring t))) 0)) 0) as [E|E];
+    [discriminate|].
+  injection H as <- <- _. cbn [ring upd]. split; [reflexivity|]. lia.
+Qed.
+
+Section Trace.
+Context {CC : Type} (cci : cc_iface CC).
+Hypothesis Hcc : cc_total cci.
+Variables ti tm : Z.
+Notation vsock := (vsock CC).
+
+Definition PI (s : vsock) (a : c10_acc) : Prop :=
+  tinv ti tm s /\ ca_lim a = v_emsg_limit s /\ o_max_retx (v_opts s) <> 0.
+
+Lemma vstep_emsg_limit : forall (s : vsock) o,
+  v_emsg_limit (vstep_state cci s o) = match o with VoSetLimit m => m | _ => v_emsg_limit s end.
+Proof.
+  intros s o. unfold vstep_state. destruct o; cbn [vstep].
+  - reflexivity.
+  - reflexivity.
+  - destruct (poll cci (VSockRec.set_sends s script)) as [s' r] eqn:E. cbn [fst].
+    destruct (VSock_LemmasFin.poll_loop_frame0 cci 64 (poll_init (VSockRec.set_sends s script)))
+      as (_ & _ & _ & _ & P5 & _).
+    rewrite poll_unfold in E. rewrite E in P5. exact P5.
+  - destruct (v_inbox_closed s); reflexivity.
+  - reflexivity.
+  - destruct (writer_dropped (v_tx s)); [reflexivity|]. destruct (poll_write _ _) as [[tx1 r] w]. reflexivity.
+  - destruct (writer_dropped (v_tx s)); [reflexivity|]. destruct (poll_flush _) as [[tx1 r] w]. reflexivity.
+  - destruct (writer_dropped (v_tx s)); [reflexivity|]. destruct (poll_shutdown _) as [[tx1 r] w]. reflexivity.
+  - destruct (reader_dropped (v_rx s)); [reflexivity|]. destruct (rx_read _ _) as [[rx1 r] w]. reflexivity.
+  - destruct (reader_dropped (v_rx s)); [reflexivity|]. destruct (rx_drop_reader _) as [rx1 w]. reflexivity.
+  - destruct (drop_writer _) as [tx1 w]. reflexivity.
+Qed.
+
+Lemma PI_step : forall (s : vsock) a o,
+  PI s a -> op_clock_ok o -> poll_finished (vstep_out cci s o) = false ->
+  PI (vstep_state cci s o) (c10_acc_next a (fstep_of cci s o)).
+Proof.
+  intros s a o (T & L & M) Ho Hl.
+  pose proof (vstep_x cci false Hcc ti tm s o T Ho (op_ef_false s o)) as Hs.
+  pose proof (vstep_emsg_limit s o) as El.
+  pose proof (vstep_keeps cci s o) as (K1 & _).
+  unfold vstep_state, vstep_out in *.
+  destruct (vstep cci s o) as [[[s' out] dw] sw] eqn:Ev. cbn [fst snd] in *.
+  split; [eapply out_ok_next; eauto|]. split; [|rewrite K1; exact M].
+  unfold c10_acc_next. rewrite fstep_of_event. rewrite El.
+  destruct o; cbn [fevent_of ca_lim]; try exact L. reflexivity.
+Qed.
+
+End Trace.
+
